@@ -82,8 +82,20 @@ THEOREMS = [
     "Scenic.Sampler.Prog.wfB_sound",
     "Scenic.Sampler.Prog.normalizedB_sound",
     "Scenic.Sampler.RExpr.holds_resp",
+    # construction of a weighted choice (Props/C01Options.lean), instantiated on the regenerated Scenic.Gen.optCfg
+    "Scenic.C01.options_build_spec",
+    "Scenic.C01.options_build_errors",
+    "Scenic.C01.options_build_ok",
+    "Scenic.C01.options_kept_proper",
+    "Scenic.C01.options_dropped_not_dependency",
+    "Scenic.C01.options_selector_law",
+    "Scenic.C01.options_clone_same",
+    "Scenic.Sampler.optLoop_eq",
+    "Scenic.Sampler.firstErr_none_iff",
+    "Scenic.Sampler.keptSpec_mem",
+    "Scenic.Sampler.keptSpec_sum",
 ]
-SIDE = ["Scenic.C01.gen_cfg_wf"]
+SIDE = ["Scenic.C01.gen_cfg_wf", "Scenic.C01.gen_optcfg_wf"]
 
 FINGERPRINTS = {
     "Scenario._generateInner": ("src/scenic/core/scenarios.py", "Scenario._generateInner"),
@@ -525,17 +537,27 @@ class UnitUniform(float):
     enum = None
 
     def _branch(self, p, below):
+        """One draw U is known to lie in [lo, hi) (refined by every earlier comparison of *this* draw): comparing it
+        with p is decided when p is outside that interval, else branches with P(U < p | lo <= U < hi) and narrows
+        the interval, so that several comparisons of the same draw are jointly exact (not independent)."""
         try:
             p = Fraction(p)
         except (TypeError, ValueError):
             raise OutsideFragment("random.random() compared with a non-number")
         p = min(max(p, Fraction(0)), Fraction(1))
-        opts = []
-        if p > 0:
-            opts.append((below, p))
-        if p < 1:
-            opts.append((not below, 1 - p))
-        return UnitUniform.enum.choose(opts)
+        lo = getattr(self, "_lo", Fraction(0))
+        hi = getattr(self, "_hi", Fraction(1))
+        if p <= lo:
+            return not below
+        if p >= hi:
+            return below
+        q = (p - lo) / (hi - lo)
+        is_below = UnitUniform.enum.choose([(True, q), (False, 1 - q)])
+        if is_below:
+            self._hi = p
+        else:
+            self._lo = p
+        return below if is_below else (not below)
 
     def __le__(self, p):
         return self._branch(p, True)
@@ -1812,6 +1834,91 @@ def run_cases(ctx, cases, pool, deadline=None):
 
 
 # =========================================================================== main
+# =========================================================================== Options.__init__ vs the Lean `optBuild`
+OPT_WEIGHTS = [0, 1, 2, 3, 0.5, 0.25, 0.0, 1.5, -1, -0.5, "x", None, 0, 0, 1]
+
+
+def _opt_real(ws):
+    """run the real `Options({DiscreteRange(i, i): w_i})`; canonical answer in the driver's output format"""
+    from scenic.core.distributions import DiscreteRange, Options, RejectionException
+    objs = [DiscreteRange(i, i) for i in range(len(ws))]
+    ident = {id(o): i for i, o in enumerate(objs)}
+    try:
+        o = Options({ob: w for ob, w in zip(objs, ws)})
+    except TypeError:
+        return "typeError"
+    except ValueError:
+        return "negative"
+    except RejectionException:
+        return "empty"
+    sel = o._dependencies[0]
+    kept = [ident.get(id(x), -1) for x in o.options]
+    wts = [Fraction(w) for w in (sel.weights or [])]
+    c = o.clone()
+    same = ([ident.get(id(x), -1) for x in c.options] == kept
+            and [Fraction(w) for w in (c._dependencies[0].weights or [])] == wts and c is not o
+            and c._dependencies[0] is not sel)
+    deps = [ident.get(id(x), -1) for x in o._dependencies[1:]]
+    fr = lambda q: f"{q.numerator}/{q.denominator}"
+    return (f"ok {len(kept)} " + " ".join(map(str, kept)) + " | " + " ".join(fr(q) for q in wts)
+            + " | clone=" + ("same" if same else "differs") + " | deps " + " ".join(map(str, deps)))
+
+
+def _opt_spec(ws):
+    """the statement of options_build_spec, directly in Python"""
+    for w in ws:
+        if isinstance(w, bool) or not isinstance(w, (int, float)):
+            return "typeError"
+        if w < 0:
+            return "negative"
+    kept = [(i, Fraction(w)) for i, w in enumerate(ws) if w != 0]
+    if not kept:
+        return "empty"
+    ids = " ".join(str(i) for i, _ in kept)
+    return (f"ok {len(kept)} {ids} | " + " ".join(f"{q.numerator}/{q.denominator}" for _, q in kept)
+            + f" | clone=same | deps {ids}")
+
+
+def options_correspondence(ctx, driver_ok):
+    """(C) Lean `optBuild`/`optClone`/`optNodes` on the regenerated optCfg vs the real constructor, and (S) the real
+    constructor vs the statement; structured inputs: every weight list of length <= 2 over the boundary set, then
+    seeded lists of length 3..6 (zero-dense), plus malformed weights (non-numbers)."""
+    import itertools
+    base = [0, 1, 2, 0.5, 0.0, -1, "x"]
+    cases = [list(t) for k in range(0, 3) for t in itertools.product(base, repeat=k)]
+    for _ in range(ctx.budget(150, 1500)):
+        k = ctx.rng.choice([3, 3, 4, 5, 6])
+        cases.append([ctx.rng.choice(OPT_WEIGHTS) for _ in range(k)])
+    lines = []
+    for ws in cases:
+        toks = []
+        for i, w in enumerate(ws):
+            toks += [str(i), "X" if not isinstance(w, (int, float)) else
+                     f"{Fraction(w).numerator}/{Fraction(w).denominator}"]
+        lines.append(f"optbuild {len(ws)} " + " ".join(toks))
+    model = ctx.driver(lines) if driver_ok else [None] * len(lines)
+    found = False
+    for ws, line, m in zip(cases, lines, model):
+        real = _opt_real(ws)
+        spec = _opt_spec(ws)
+        ctx.case(("options-build", repr(ws)), nontrivial=(len(ws) >= 2 and real.startswith("ok")))
+        ctx.hist("options-build", real.split(" ")[0])
+        if m is not None and m != real:
+            ctx.broken("correspondence", "options-build", f"Options({{o_i: w_i}}) with weights {ws!r}: real `{real}`, Lean optBuild `{m}`")
+        if real != spec:
+            cls = real.split(" ")[0] + "-for-" + spec.split(" ")[0]
+            if "clone=differs" in real:
+                cls = "clone"
+            if ctx.violation(f"options-build:{cls}",
+                             f"Options({{o_0: w_0, ...}}) with weights {ws!r} builds `{real}`; the property needs `{spec}` "
+                             "(exactly the zero-weight options dropped, weights kept in order, clone identical)",
+                             dict(kind="options", weights=[w if isinstance(w, (int, float)) else repr(w) for w in ws],
+                                  real=real, expected=spec)):
+                found = True
+                break
+    return found
+
+
 def run(ctx):
     ctx.rule = ("case = (program of the finite-discrete fragment, 2D/3D mode, maxIterations); for each the exact PMF of "
                 "Scenario.generate over (active soft requirements, canonical scene, iterations) is obtained by "
@@ -1839,6 +1946,13 @@ def run(ctx):
         ctx.notes.append(f"translator tie lost: {e}; the model runs with its reference configuration and the tie "
                          "rests on the correspondence run at thorough budget")
         ctx.gen("SamplerCfg", tr.to_lean(tr.REFERENCE))
+    try:
+        ctx.gen("SamplerOptCfg", tr.to_lean_opt(tr.extract_opt()))
+    except TemplateMismatch as e:
+        ctx.escalated.append(f"translator tie lost (Options.__init__): {e}")
+        ctx.notes.append(f"translator tie lost: {e}; the model of Options.__init__ runs with its reference configuration "
+                         "and the tie rests on the options-build correspondence")
+        ctx.gen("SamplerOptCfg", tr.to_lean_opt(tr.OPT_REFERENCE))
     phases = {"translate": round(ctx.elapsed(), 1)}
     pr = ctx.prove(THEOREMS, side_conditions=SIDE)
     phases["prove"] = round(ctx.elapsed(), 1)
@@ -1856,6 +1970,8 @@ def run(ctx):
     nprog = ctx.budget(60, 1500)
     seeds = [ctx.rng.getrandbits(48) for _ in range(nprog)]
     nproc = max(1, min(12 if (ctx.tier == "thorough" or ctx.escalated) else 6, (os.cpu_count() or 2) - 2))
+    if os.environ.get("VERIF_C01_PROCS"):
+        nproc = max(1, int(os.environ["VERIF_C01_PROCS"]))
     # warm up everything Scenic initialises lazily, then freeze the heap so that the forked workers share it
     _worker(("case", dict(name="warmup", code="ego = new Object at (Uniform(0, 5), 0, 0)\nparam a = DiscreteRange(1, 2)\n",
                           mode2D=False, term=_corpus()[0][3])))
@@ -1863,6 +1979,8 @@ def run(ctx):
     gc.freeze()
     phases["warmup"] = round(ctx.elapsed(), 1)
     found = False
+    found |= options_correspondence(ctx, ctx.extra["driver_ok"])
+    phases["options-build"] = round(ctx.elapsed(), 1)
     deadline = 1500 if (ctx.tier == "thorough" or ctx.escalated) else 130
     with mp.get_context("fork").Pool(nproc) as pool:
         corpus = [("case", dict(name="corpus:" + nm, code=code, mode2D=m2, term=t)) for nm, code, m2, t in _corpus()]
